@@ -1939,6 +1939,87 @@ def eliminate_container_aliases(func, self_name, rebound_elsewhere):
     return n
 
 
+def fold_derived_fields(prog, known_attrs):
+    """A new attribute that `__init__` sets once, unconditionally, to an expression over constructor parameters that are themselves kept in
+    attributes nobody reassigns (`self.group = group`; `self._curve = self._ec_groups[group]`) is, wherever another method of the class
+    reads it, that expression over the kept attributes (`self._ec_groups[self.group]`).  Returns the attributes folded."""
+    outside = {}       # stores outside constructors, by attribute name
+    for m in prog.modules.values():
+        inits = {id(x) for f in ast.walk(m.tree) if isinstance(f, ast.FunctionDef) and f.name == '__init__' for x in ast.walk(f)}
+        for x in ast.walk(m.tree):
+            if isinstance(x, ast.Attribute) and isinstance(x.ctx, (ast.Store, ast.Del)) and id(x) not in inits:
+                outside[x.attr] = outside.get(x.attr, 0) + 1
+    done = []
+    for c in prog.classes.values():
+        init = c.methods.get('__init__')
+        if init is None or not isinstance(init.node, ast.FunctionDef) or not init.self_name:
+            continue
+        me = init.self_name
+        params = {a.arg for a in ast.walk(init.node.args) if isinstance(a, ast.arg)} - {me}
+        rebound = {x.id for x in walk_no_nested(init.node) if isinstance(x, ast.Name) and isinstance(x.ctx, (ast.Store, ast.Del))}
+        kept = {}          # param -> attribute that holds it, set once in the whole program
+        top = [st for st in init.node.body if isinstance(st, ast.Assign) and len(st.targets) == 1 and isinstance(st.targets[0], ast.Attribute)
+               and isinstance(st.targets[0].value, ast.Name) and st.targets[0].value.id == me]
+        here = {}
+        for x in ast.walk(init.node):
+            if isinstance(x, ast.Attribute) and isinstance(x.ctx, (ast.Store, ast.Del)):
+                here[x.attr] = here.get(x.attr, 0) + 1
+        # a subclass constructor that runs after this one could set the attribute again
+        later = {x.attr for k in prog.classes.values() if c in k.mro()[1:] and '__init__' in k.methods
+                 for x in ast.walk(k.methods['__init__'].node) if isinstance(x, ast.Attribute) and isinstance(x.ctx, (ast.Store, ast.Del))}
+        stores = {a_: (1 if here.get(a_) == 1 and not outside.get(a_) and a_ not in later else 2) for a_ in here}
+        for st in top:
+            a = st.targets[0].attr
+            if isinstance(st.value, ast.Name) and st.value.id in params and st.value.id not in rebound and stores.get(a) == 1:
+                kept[st.value.id] = a
+        for st in top:
+            a = st.targets[0].attr
+            if a in known_attrs or stores.get(a) != 1 or isinstance(st.value, ast.Name):
+                continue
+            ok = True
+            for x in ast.walk(st.value):
+                if isinstance(x, ast.Name):
+                    if x.id == me or x.id in kept:
+                        continue
+                    if x.id in params or x.id in rebound:
+                        ok = False
+                elif isinstance(x, ast.Attribute) and isinstance(x.value, ast.Name) and x.value.id == me:
+                    # another attribute of self: a class-level constant, or a kept parameter
+                    if not (x.attr in kept.values() or (x.attr not in here and not outside.get(x.attr) and c.lookup_attr(x.attr) is not None)):
+                        ok = False
+                elif isinstance(x, (ast.Call, ast.Lambda, ast.Await, ast.Yield, ast.NamedExpr, ast.GeneratorExp, ast.ListComp, ast.DictComp, ast.SetComp)):
+                    ok = False
+            if not ok:
+                continue
+            readers = [f for k in prog.classes.values() if c in k.mro() for f in k.methods.values() if f is not init and isinstance(f.node, ast.FunctionDef)]
+            if any(not f.self_name for f in readers if any(isinstance(x, ast.Attribute) and x.attr == a for x in ast.walk(f.node))):
+                continue
+            n = 0
+            for f in readers:
+                class R(ast.NodeTransformer):
+                    def visit_Attribute(s_, node):
+                        s_.generic_visit(node)
+                        nonlocal n
+                        if node.attr == a and isinstance(node.ctx, ast.Load) and isinstance(node.value, ast.Name) and node.value.id == f.self_name:
+                            sub = {p_: ast.Attribute(value=ast.Name(id=f.self_name, ctx=ast.Load()), attr=k_, ctx=ast.Load()) for p_, k_ in kept.items()}
+                            sub[me] = ast.Name(id=f.self_name, ctx=ast.Load())
+                            n += 1
+                            return ast.copy_location(_Subst(sub, {}).visit(copy.deepcopy(st.value)), node)
+                        return node
+                R().visit(f.node)
+                ast.fix_missing_locations(f.node)
+            # reads anywhere else (other classes, through other receivers) keep the attribute alive
+            elsewhere = sum(1 for m in prog.modules.values() for x in ast.walk(m.tree) if isinstance(x, ast.Attribute) and x.attr == a
+                            and isinstance(x.ctx, ast.Load))
+            if n and not elsewhere:
+                init.node.body.remove(st)
+                if not init.node.body:
+                    init.node.body.append(ast.Pass())
+            if n:
+                done.append(c.qual + '.' + a)
+    return done
+
+
 def constant_table_names(prog):
     """names of class- or module-level tables whose every definition in the program is a dict display with class / function values
     (never None), an empty display, an alias of the table of the same name (`payload_types = Base.payload_types`) or an `update` with
@@ -3683,6 +3764,10 @@ class Inliner:
             self.report['desugared'] = prog.desugared
         self._finish_moves()
         self._drop_unreferenced(cands)
+        k = fold_derived_fields(prog, set(tbl.get('vocabulary') or ()))
+        if k:
+            self.report['derived_fields'] = k
+            prog.reindex()
         if self._plain_record_subclasses():
             prog.reindex()
             k = erase_new_records(prog, known_constants(), tbl.get('attr_reads'))
